@@ -193,6 +193,7 @@ class Relay(evx.System):
     settings['DESTINATION_PROTOCOL'] = p.get('protocol', 'pickle')
     settings['DESTINATION_POOL_REPLICAS'] = False
     settings['DESTINATIONS'] = [dest_str(d) for d in self.dests]
+    settings['program'] = 'carbon-relay'
     settings['RELAY_METHOD'] = p.get('relay_method', 'rules')
     if p.get('hash_type'):
       settings['ROUTER_HASH_TYPE'] = p['hash_type']
@@ -260,6 +261,8 @@ class Relay(evx.System):
     self.rx_pool = 0
     self.badstats = False
     self.applied = []
+    self.reports = 0
+    self.reported = {}        # stat name -> sum of the values handed to the self-metrics recorder so far
 
   def close(self):
     if getattr(self, 'saved', None):
@@ -326,6 +329,8 @@ class Relay(evx.System):
       evs.append(('tick',))
     if self.p.get('ratio_reset'):
       evs.append(('goodstats',) if self.badstats else ('badstats',))
+    if self.p.get('report') and self.reports < self.p.get('max_reports', 2) and not self.stopped:
+      evs.append(('report',))
     if not self.stopped and self.p.get('stop', True):
       evs.append(('stop',))
     if self.with_receivers and not self.stopped:
@@ -432,6 +437,28 @@ class Relay(evx.System):
       elif kind == 'goodstats':
         self.badstats = False
         self.state.instrumentation.prior_stats.clear()
+      elif kind == 'report':
+        # the periodic instrumentation tick: the real recordMetrics() reports and clears the counters; every reported value
+        # becomes a self-metric that re-enters the relay through events.metricGenerated (an ordinary datapoint that can be
+        # queued, sent or discarded like any other).  Only the thin relay_record() shim is replaced, so that the generated
+        # datapoints carry the harness's identities.
+        self.reports += 1
+        instr = self.state.instrumentation
+
+        def shim(metric, value):
+          if isinstance(value, (int, float)):
+            self.reported[metric] = self.reported.get(metric, 0) + value
+          self.n += 1
+          kk = self.n
+          full = 'carbon.relays.verif-a.%s' % metric
+          self.ref_enqueue(full, kk)
+          self.events.metricGenerated(full, (1000 + kk, float(kk)))
+        saved = instr.relay_record
+        instr.relay_record = shim
+        try:
+          instr.recordMetrics()
+        finally:
+          instr.relay_record = saved
       elif kind == 'tpause':
         self.transport(self.dests[ev[1]]).producer.pauseProducing()
       elif kind == 'tresume':
@@ -522,9 +549,10 @@ class Relay(evx.System):
     stats = self.state.instrumentation.stats
     for d in self.dests:
       name = ('%s:%d:%s' % d).replace('.', '_')
-      got = stats.get('destinations.%s.fullQueueDrops' % name, 0)
+      got = stats.get('destinations.%s.fullQueueDrops' % name, 0) + self.reported.get('destinations.%s.fullQueueDrops' % name, 0)
       if got != self.drops[d]:
-        return ('drop-count', 'fullQueueDrops for %r is %r, %d datapoints were discarded' % (d, got, self.drops[d]))
+        return ('drop-count', 'fullQueueDrops for %r is %r (%r of them already reported by the instrumentation tick), %d datapoints '
+                'were discarded' % (d, got, self.reported.get('destinations.%s.fullQueueDrops' % name, 0), self.drops[d]))
     return None
 
   def check(self):
@@ -558,8 +586,9 @@ class Relay(evx.System):
       ))
     timers = tuple(sorted(round(c.getTime() - now, 6) for c in self.reactor.clock.getDelayedCalls()))
     rx = tuple(t.producerState for p, t in self.receivers)
+    rep = (self.reports, tuple(sorted(self.state.instrumentation.stats))) if self.p.get('report') else None
     return (tuple(per), timers, tuple((m, rank[k]) for m, k in self.unrouted), bool(self.state.metricReceiversPaused),
-            bool(self.state.cacheTooFull), self.stopped, rx, self.badstats)
+            bool(self.state.cacheTooFull), self.stopped, rx, self.badstats, rep)
 
   def on_new_state(self):
     """Delivery liveness (C07): in a benign environment every queue of a connected destination drains."""
